@@ -347,7 +347,7 @@ func c39Known(c c39Case) string {
 		return ""
 	}
 	low := bytes.ToLower(c.Input)
-	if !bytes.Contains(low, []byte("<!doc")) && !bytes.Contains(low, []byte("<![cd")) {
+	if !bytes.Contains(low, []byte("<!do")) && !bytes.Contains(low, []byte("<![c")) {
 		return ""
 	}
 	rd := &soupChunkReader{data: c.Input, sizes: c.Chunks, eofWithData: c.EOFWithData}
@@ -364,7 +364,7 @@ func c39Known(c c39Case) string {
 		raw := z.Raw()
 		if len(raw) > c.MaxBuf {
 			l := bytes.ToLower(raw)
-			if len(raw) <= c.MaxBuf+2 && (bytes.HasPrefix(l, []byte("<!doc")) || bytes.HasPrefix(l, []byte("<![cd"))) {
+			if len(raw) <= c.MaxBuf+2 && (bytes.HasPrefix(l, []byte("<!do")) || bytes.HasPrefix(l, []byte("<![c"))) {
 				return "c39-maxbuf-overrun-markup-decl"
 			}
 			return ""
@@ -417,6 +417,9 @@ func FuzzVP_C39(f *testing.F) {
 			return
 		}
 		c := c39FuzzCase(data, cfg)
+		if soupKnownActive(c39Known(c)) {
+			return
+		}
 		var err error
 		func() {
 			defer func() {
